@@ -121,6 +121,11 @@ def gen_plan(seed, tier):
         # out_port only filters DELETE / DELETE_STRICT; ADD and MODIFY must
         # ignore it
         st["out_port"] = r.randint(1, nports)
+      if cmd in (W.FC_DELETE, W.FC_DELETE_STRICT) \
+          and Rng(mix(seed, "op0", len(steps))).chance(0.1):
+        # port number 0 is a port number like any other: a filter that no
+        # entry here satisfies
+        st["out_port"] = 0
       steps.append(st)
     elif k == "frame":
       fs, port = r.pick(base)
